@@ -715,8 +715,8 @@ pub fn property() -> Property {
             "multi-type joins, exists/forall, accumulate, multi-operator arithmetic are not generated".into(),
         ],
         parts: vec![
-            Part { name: "parser", run, quick: Budget::Random { cases: 1_500, bytes: 500 }, thorough: Budget::Random { cases: 40_000, bytes: 500 }, min_nontrivial_pct: 30 },
-            Part { name: "api", run: run_api, quick: Budget::Random { cases: 12_000, bytes: 500 }, thorough: Budget::Random { cases: 400_000, bytes: 500 }, min_nontrivial_pct: 30 },
+            Part { name: "parser", run, quick: Budget::Random { cases: 6_000, bytes: 500 }, thorough: Budget::Random { cases: 40_000, bytes: 500 }, min_nontrivial_pct: 30 },
+            Part { name: "api", run: run_api, quick: Budget::Random { cases: 30_000, bytes: 500 }, thorough: Budget::Random { cases: 400_000, bytes: 500 }, min_nontrivial_pct: 30 },
             Part { name: "exh", run: run_api, quick: Budget::Exhaustive { param: 3 }, thorough: Budget::Exhaustive { param: 5 }, min_nontrivial_pct: 0 },
         ],
         watchdog: true,
